@@ -64,8 +64,11 @@ func (v *Voting[_, _]) outcomeIndex(numRequiredVotes int) (int, bool) {
 	for _, vote := range v.Votes {
 		numVotes[vote]++
 	}
-	for index, votes := range numVotes {
-		if votes >= numRequiredVotes {
+	// scan in candidate order: ranging over the map would make the outcome depend on Go's map
+	// iteration order whenever more than one candidate has enough votes
+	for index := range v.Candidates {
+		votes, ok := numVotes[index]
+		if ok && votes >= numRequiredVotes {
 			return index, true
 		}
 	}
